@@ -199,6 +199,12 @@ func checkC09Directed(c C09Directed) *Violation {
 		case "yaml":
 			doc.Insts[at].Vel = &bad
 			firstFailing = "write"
+			if seed%3 == 0 {
+				// present but empty: not one of the six dynamics either (in a document; an empty --velocity flag means "no override")
+				sentinel := "ZZDYNAMIC"
+				doc.Insts[at].Vel = &sentinel
+				yamlOverride = strings.Replace(doc.YAML(), yq(sentinel), pickFrom(seed/3, []string{`""`, `''`, `[]`, `{}`, `" "`}), 1)
+			}
 		case "flag":
 			writeArgs = append(writeArgs, "--velocity", bad)
 			firstFailing = "write"
